@@ -11,7 +11,7 @@ ROUTES = ["Molecule(m)", "Structure(m)", "CartesianGeometry(m)", "Connectivity(m
           "ConformerEnsemble(e)", "ens pickle", "ens deepcopy", "Molecule(e[i])"]
 C_ROUTES = {"pickle", "deepcopy", "ens pickle", "ens deepcopy", "concatenate"}   # C code (pickle, numpy sum of charges): field values concrete there
 MUTS = ["atom attrib in tuple", "bond attrib in tuple", "mol attrib in tuple", "atom label", "atom attrib entry", "atom attrib nested", "atom element", "bond type", "bond attrib entry", "coord cell", "charge cell",
-        "mol attrib entry", "mol attrib nested", "add atom", "del atom", "add hydrogens", "mol charge"]
+        "mol attrib entry", "mol attrib nested", "add atom", "del atom", "add hydrogens", "mol charge", "key into an empty bond attrib", "key into an empty atom attrib"]
 
 
 def deep(x):
@@ -113,6 +113,14 @@ def mutate(o, mut):
         if not hasattr(o, "bonds") or not o.bonds:
             return False
         o.bonds[0].attrib["bo"] = "changed"
+    elif name == "key into an empty bond attrib":
+        if not hasattr(o, "bonds") or len(o.bonds) < 2 or o.bonds[1].attrib:
+            return False
+        o.bonds[1].attrib["new"] = 1
+    elif name == "key into an empty atom attrib":
+        if len(o.atoms) < 2 or o.atoms[1].attrib:
+            return False
+        o.atoms[1].attrib["new"] = 1
     elif name == "coord cell":
         if not hasattr(o, "coords"):
             return False
